@@ -101,6 +101,11 @@ Definition after_del (f : faults) (b : list bstate) : list bstate :=
 Definition after_dedup (f : faults) (b : list bstate) : list bstate :=
   let a := after_del f b in filter (in_ids (map bid (kept (map sblk a)))) a.
 
+(* the blocks whose no-compact marker is read: none when the deletion-mark filter
+   failed (fetch returns "filter metas" at the first failing filter) *)
+Definition noc_read (f : faults) (b : list bstate) : list bstate :=
+  if existsb (del_err f) (filter (loaded f) b) then [] else after_dedup f b.
+
 Record sview := mk_sview {
   v_metas : list Z;       (* Syncer.Metas() *)
   v_partial : list Z;     (* Syncer.Partial() *)
@@ -134,7 +139,7 @@ Definition performed (concurrent : bool) (f : faults) (b : list bstate) (r : rid
   | RExists i => concurrent && existsb (fun x => sid x =? i) b
   | RMeta i => existsb (fun x => (sid x =? i) && has_meta x) b
   | RDel i => existsb (fun x => (sid x =? i) && loaded f x) b
-  | RNoc i => existsb (fun x => sid x =? i) (after_dedup f b)
+  | RNoc i => existsb (fun x => sid x =? i) (noc_read f b)
   end.
 
 (* the reads of a fault-free sync, in one sequential order *)
@@ -143,7 +148,7 @@ Definition read_order (concurrent : bool) (b : list bstate) : list rid :=
   RList :: (if concurrent then map (fun x => RExists (sid x)) b else [])
   ++ map (fun x => RMeta (sid x)) (filter has_meta b)
   ++ map (fun x => RDel (sid x)) (filter (loaded f) b)
-  ++ map (fun x => RNoc (sid x)) (after_dedup f b).
+  ++ map (fun x => RNoc (sid x)) (noc_read f b).
 
 Definition rid_eqb (a b : rid) : bool :=
   match a, b with
@@ -171,7 +176,7 @@ Definition trace (concurrent : bool) (f : faults) (b : list bstate) : list read 
   :: (if concurrent then map (fun x => (KList, if f (RExists (sid x)) then Transient else if has_meta x then Found else NotFound)) b else [])
   ++ map (fun x => (KMeta, meta_outcome f x)) (filter has_meta b)
   ++ map (fun x => (KDelMark, del_outcome f x)) (filter (loaded f) b)
-  ++ map (fun x => (KNoCompact, noc_outcome f x)) (after_dedup f b).
+  ++ map (fun x => (KNoCompact, noc_outcome f x)) (noc_read f b).
 
 (* one compactor iteration: cleaner (if configured), garbage collection, then
    whatever group compaction does on the view ([compact_work], abstract) *)
@@ -284,40 +289,133 @@ Definition Compact_muts : list string := ["c.blocksCleaner.DeleteMarkedBlocks"; 
 Definition main_syncs : list string := ["sy.SyncMetas"].
 Definition main_muts : list string := ["downsampleBucket"; "compact.ApplyRetentionPolicyByResolution"; "cleanPartialMarked"; "compact.BestEffortCleanAbortedPartialUploads"].
 
+(* ---- the error-return lines between a failing read and SyncMetas ----------------- *)
+Definition ends_nil (s : string) : bool :=
+  let n := String.length s in
+  Nat.leb 3 n && (String.substring (n - 3) 3 s =? "nil").
+
+(* is there, before the enclosing `if` closes, a return of something other than nil? *)
+Fixpoint find_err_return (depth : nat) (evs : list ev) : bool :=
+  match evs with
+  | [] => false
+  | e :: r =>
+    if fst e =? "return" then (if ends_nil (snd e) then find_err_return depth r else true)
+    else if fst e =? "if" then find_err_return (S depth) r
+    else if fst e =? "endif" then match depth with O => false | S d => find_err_return d r end
+    else find_err_return depth r
+  end.
+
+Fixpoint after_ev (k t : string) (evs : list ev) : option (list ev) :=
+  match evs with
+  | [] => None
+  | e :: r => if ev_is k t e then Some r else after_ev k t r
+  end.
+
+(* after the call [anchor], the next `if err != nil` returns an error *)
+Definition error_returned_after (anchor : string) (evs : list ev) : bool :=
+  match after_ev "call" anchor evs with
+  | Some r => match after_ev "if" "err != nil" r with Some r2 => find_err_return 0 r2 | None => false end
+  | None => false
+  end.
+
+Definition if_returns_error (cond : string) (evs : list ev) : bool :=
+  match after_ev "if" cond evs with Some r => find_err_return 0 r | None => false end.
+
+Definition error_lines_ok : bool :=
+  (* ReadMarker / loadMeta: a failed Get is returned *)
+  error_returned_after "bkt.ReaderWithExpectedErrs().Get" ReadMarker_events
+  && error_returned_after "f.bkt.ReaderWithExpectedErrs().Get" loadMeta_events
+  (* fetchMetadata: lister / worker errors returned; other loadMeta errors => metaErrs *)
+  && error_returned_after "eg.Wait" fetchMetadata_events
+  && existsb (ev_is "call" "resp.metaErrs.Add") fetchMetadata_events
+  && fetchMetadata_other_errors_incomplete
+  (* the marker filters: error remembered, returned by the worker, returned by Filter *)
+  && delmark_filter_remembers_error && nocompact_filter_remembers_error
+  && existsb (ev_is "return" "lastErr") delmark_filter_events
+  && existsb (ev_is "return" "lastErr") nocompact_filter_events
+  && error_returned_after "eg.Wait" delmark_filter_events
+  && error_returned_after "eg.Wait" nocompact_filter_events
+  (* fetch: fetchMetadata error, filter error, incomplete view all returned *)
+  && error_returned_after "f.g.Do" fetch_events
+  && error_returned_after "filter.Filter" fetch_events
+  && if_returns_error "len(resp.metaErrs) > 0" fetch_events.
+
 Definition order_facts_ok : bool :=
   dominated Compact_syncs Compact_muts Compact_events
   && Compact_workers_fed_by_groupChan && Compact_groupChan_fed_after_sync
   && dominated main_syncs main_muts compactMainFn_events
-  && sync_propagates SyncMetas_events.
+  && sync_propagates SyncMetas_events
+  && error_lines_ok.
 
 Close Scope string_scope.
 
 (* ---- cases ------------------------------------------------------------------------ *)
-(* base: reads of a stand-alone SyncMetas on the intact bucket, whether it failed,
-   mutating ops it issued; full_mut: mutating ops of a fault-free Compact;
-   runs: Compact with one read of the first sync failing: reads of the run,
+Definition mk_bs (i g : Z) (srcs : list Z) (m : mstate) (d : dstate) (n : nstate) : bstate :=
+  mk_bstate (mk_blk i g srcs) m d n.
+
+Definition no_faults : faults := fun _ => false.
+
+(* b: the bucket as generated; base: reads (kind, outcome) of a stand-alone SyncMetas
+   on it; metas / partial: Syncer.Metas() / Partial() afterwards; sync_failed;
+   base_mut: mutating ops of the sync; deleted / gc_marked: meta-only blocks removed /
+   newly marked for deletion by a fault-free Compact; full_mut: its mutating ops;
+   runs: Compact with exactly one read of the first sync failing: which read,
    whether Compact returned an error, mutating ops issued after the fault *)
 Inductive case :=
-| CSync (base : list read) (sync_failed : bool) (base_mut full_mut : nat)
-        (runs : list (list read * bool * nat)).
+| CSync2 (concurrent cleaner : bool) (b : list bstate) (base : list read)
+         (metas partial : list Z) (sync_failed : bool) (base_mut : nat)
+         (deleted gc_marked : list Z) (full_mut : nat)
+         (runs : list (rid * bool * nat)).
+
+Definition kind_eqb (a b : kind) : bool :=
+  match a, b with
+  | KList, KList | KMeta, KMeta | KDelMark, KDelMark | KNoCompact, KNoCompact | KOther, KOther => true
+  | _, _ => false
+  end.
+Definition outcome_eqb (a b : outcome) : bool :=
+  match a, b with
+  | Found, Found | NotFound, NotFound | Corrupt, Corrupt | BadVersion, BadVersion | Transient, Transient => true
+  | _, _ => false
+  end.
+Definition count_read (k : kind) (o : outcome) (l : list read) : nat :=
+  List.length (filter (fun r => kind_eqb (fst r) k && outcome_eqb (snd r) o) l).
+Definition all_kinds := [KList; KMeta; KDelMark; KNoCompact; KOther].
+Definition all_outcomes := [Found; NotFound; Corrupt; BadVersion; Transient].
+(* same reads with the same outcomes, up to order (the real sync is concurrent) *)
+Definition same_reads (a b : list read) : bool :=
+  forallb (fun k => forallb (fun o => Nat.eqb (count_read k o a) (count_read k o b)) all_outcomes) all_kinds.
+
+Definition cop_ids (l : list cop) : list Z :=
+  flat_map (fun o => match o with CDelete i | CMarkDeletion i => [i] | COther _ => [] end) l.
+
+Definition is_none {A} (o : option A) : bool := match o with None => true | Some _ => false end.
 
 Definition corr_ok (c : case) : bool :=
   match c with
-  | CSync base sync_failed base_mut full_mut runs =>
-      Bool.eqb (sync_error base) sync_failed
-      && Nat.eqb base_mut 0
-      && (if sync_error base then Nat.eqb full_mut 0 else true)
-      && forallb (fun r => let '(tr, cerr, after) := r in
-           Bool.eqb (sync_error tr) cerr
-           && Nat.eqb (List.length (iteration tr (repeat tt after))) (if sync_error tr then 0%nat else after)
-           && (if sync_error tr then Nat.eqb after 0 else true)) runs
+  | CSync2 conc cleaner b base metas partial sync_failed base_mut deleted gc_marked full_mut runs =>
+      Nat.eqb base_mut 0
+      && same_reads base (trace conc no_faults b)
+      && Bool.eqb (sync_error base) sync_failed
+      && match sync conc no_faults b with
+         | None => sync_failed && Nat.eqb full_mut 0
+         | Some v =>
+             negb sync_failed && set_eqb metas (v_metas v) && set_eqb partial (v_partial v)
+             && set_eqb deleted (cop_ids (cleaner_ops cleaner v))
+             && set_eqb gc_marked (cop_ids (gc_ops cleaner v))
+         end
+      && forallb (fun r => let '(x, cerr, after) := r in
+           Bool.eqb (is_none (sync conc (only x) b)) cerr
+           && Nat.eqb (List.length (iteration2 conc cleaner (only x) b (fun _ => repeat (COther 0) after)))
+                      (if is_none (sync conc (only x) b) then 0%nat
+                       else List.length (iteration2 conc cleaner (only x) b (fun _ => repeat (COther 0) after)))
+           && (if is_none (sync conc (only x) b) then Nat.eqb after 0 else true)) runs
   end.
 
 Definition pred_ok (c : case) : bool :=
   match c with
-  | CSync base sync_failed base_mut full_mut runs =>
+  | CSync2 conc cleaner b base metas partial sync_failed base_mut deleted gc_marked full_mut runs =>
       (if sync_failed then Nat.eqb full_mut 0 else true)
-      && forallb (fun r => let '(tr, _, after) := r in
-           if existsb is_transient tr then Nat.eqb after 0 else true) runs
+      && forallb (fun r => let '(x, cerr, after) := r in
+           if performed conc (only x) b x then cerr && Nat.eqb after 0 else true) runs
       && order_facts_ok
   end.
